@@ -152,7 +152,7 @@ def main():
                 for cid, ln in spec['extra_cases'](C, tier, seed):
                     case_of[len(proto)] = cid
                     proto.append(ln)
-            verdicts, derr = C.run_driver(proto, timeout=spec.get('driver_timeout', {}).get(tier, 1800)) if proto else ([], '')
+            verdicts, derr = C.run_driver(proto, timeout=spec.get('driver_timeout', {}).get(tier, 1800), jobs=spec.get('driver_jobs', 1)) if proto else ([], '')
             if verdicts is None:
                 broken.append({'what': 'driver', 'name': derr})
                 verdicts = []
